@@ -217,7 +217,7 @@ Proof.
   unfold torch_accepts. intros tz names H. apply andb_true_iff in H. destruct H as [A B].
   split; [exact A|]. destruct names as [|n0 r]; [discriminate|].
   destruct (upto_slash n0) as [d|]; [|discriminate].
-  apply mem_str_In in B. exists (d ++ "/data.pkl"). split; [exact B|].
+  apply andb_true_iff in B. destruct B as [_ B]. apply mem_str_In in B. exists (d ++ "/data.pkl"). split; [exact B|].
   apply ends_with_spec. eauto.
 Qed.
 
